@@ -116,6 +116,11 @@ def gen_form(t, max_parts=4, file_bias=2, big_file=None, allow_pre_epi=True):
             p = {"kind": "field", "name": name, "content": gen_content(t, boundary, text=True), "extra": None}
             if t.draw(6) == 0:
                 p["extra"] = ("Content-Type", "text/plain; charset=utf-8")
+        if i == 0 and t.draw(15) == 0:
+            # the conventional hint field of RFC 7578 4.6: here an ordinary text field like any other
+            p = {"kind": "field", "name": "_charset_", "content": t.choice([b"iso-8859-1", b"windows-1252", b"utf-16", b"shift_jis"]), "extra": None}
+        if t.draw(10) == 0:
+            p["pad"] = t.choice([b" ", b"  ", b"\t", b" \t "])       # linear white space after the delimiter (a gateway's padding)
         parts.append(p)
     preamble = b""
     epilogue = b""
@@ -152,7 +157,7 @@ def encode_form(form):
     if form["preamble"]:
         out.append(form["preamble"] + b"\r\n")
     for p in form["parts"]:
-        out.append(b"--" + b + b"\r\n")
+        out.append(b"--" + b + p.get("pad", b"") + b"\r\n")          # RFC 2046: dash-boundary transport-padding CRLF
         for k, v in part_headers(p):
             out.append(("%s: %s\r\n" % (k, v)).encode("utf-8"))
         if p.get("extra_raw"):
@@ -175,7 +180,7 @@ def delimiter_offsets(form):
     needle = b"--" + b
     i = body.find(needle)
     while i >= 0:
-        offs.append((max(0, i - 2), min(len(body), i + len(needle) + 4)))
+        offs.append((max(0, i - 2), min(len(body), i + len(needle) + 8)))      # (incl. transport padding and the line break)
         i = body.find(needle, i + 1)
     return offs
 
@@ -255,7 +260,7 @@ def content_spans(form):
         pos += len(form["preamble"]) + 2
     spans = []
     for p in form["parts"]:
-        pos += 2 + len(b) + 2
+        pos += 2 + len(b) + len(p.get("pad", b"")) + 2
         for k, v in part_headers(p):
             pos += len(("%s: %s\r\n" % (k, v)).encode("utf-8"))
         if p.get("extra_raw"):
